@@ -29,8 +29,10 @@ pub enum Call {
     AnnouncePeer,
     AnnounceSigned,
     Bootstrapped,
+    /// the same key at seq 6 with cas = 5 (overrides an in-flight PutMutable of seq 5)
+    PutMutableCas,
 }
-pub const CALLS: [Call; 11] = [Call::FindNode, Call::GetClosest, Call::GetImmutable, Call::GetMutable, Call::GetPeers, Call::GetSignedPeers, Call::PutImmutable, Call::PutMutable, Call::AnnouncePeer, Call::AnnounceSigned, Call::Bootstrapped];
+pub const CALLS: [Call; 12] = [Call::PutMutableCas, Call::FindNode, Call::GetClosest, Call::GetImmutable, Call::GetMutable, Call::GetPeers, Call::GetSignedPeers, Call::PutImmutable, Call::PutMutable, Call::AnnouncePeer, Call::AnnounceSigned, Call::Bootstrapped];
 
 #[derive(Clone, Copy, Debug, PartialEq, Eq)]
 pub enum Fault {
@@ -114,6 +116,10 @@ fn start_call(w: &World, x: &Node, call: Call, alt: bool, keys: &Keys) -> CallSt
             let item = MutableItem::new(&keys.signer, b"value", 5, keys.salt(alt).as_deref());
             put(PutRequestSpecific::PutMutable(PutMutableRequestArguments::from(item, None)), &mut put_rx)
         }
+        Call::PutMutableCas => {
+            let item = MutableItem::new(&keys.signer, b"value-2", 6, keys.salt(alt).as_deref());
+            put(PutRequestSpecific::PutMutable(PutMutableRequestArguments::from(item, Some(5))), &mut put_rx)
+        }
         Call::AnnouncePeer => put(PutRequestSpecific::AnnouncePeer(AnnouncePeerRequestArguments { info_hash: t, port: 5000, implied_port: None }), &mut put_rx),
         Call::AnnounceSigned => {
             let ts = w.unix_micros();
@@ -145,7 +151,7 @@ fn keys_for(script: &Script) -> Keys {
     let (value_a, value_b) = (rng.blob(5, 20), rng.blob(5, 20));
     // a common target for "equal target" scripts: the mutable target if a mutable call takes part,
     // else the immutable target of value A
-    let has_mut = script.calls.iter().any(|c| matches!(c.0, Call::GetMutable | Call::PutMutable));
+    let has_mut = script.calls.iter().any(|c| matches!(c.0, Call::GetMutable | Call::PutMutable | Call::PutMutableCas));
     let target_a = if has_mut { Id::from(mutable_target(&pk, None)) } else { Id::from(immutable_target(&value_a)) };
     let target_b = if has_mut { Id::from(mutable_target(&pk, Some(b"other"))) } else { Id::from(immutable_target(&value_b)) };
     Keys { signer, pk, value_a, value_b, target_a, target_b }
@@ -304,6 +310,7 @@ fn run_script(script: &Script, fault: Fault) -> Outcome {
                 2 => Some(t_start + 520 * MS),
                 3 => first_done.map(|t| t + 10 * MS),
                 5 => first_store_at_prev.map(|t| t + 25 * MS),
+                6 => calls[started - 1].as_ref().and_then(|c| c.task.finished).map(|t| t + 10 * MS),
                 _ => first_done.map(|t| t + 6 * MIN),
             };
             if started == 0 || due.map(|d| now >= d).unwrap_or(false) {
@@ -497,6 +504,17 @@ pub fn run(a: &Args) -> Report {
         for c2 in CALLS {
             for f in [Fault::HoldStoreAcks, Fault::DropStoreAcks] {
                 store_phase.push((Script { seed: mix(a.seed, 0x5707e + store_phase.len() as u64), servers: 4, x_server: false, calls: vec![(c1, false, 0), (c2, false, 5)] }, f));
+            }
+        }
+    }
+    // store-phase triples: a third call (a mutable put overriding the first by cas, or any put) issued
+    // right after the second call completed, while the first put's store phase is still held open
+    for c1 in [Call::PutMutable, Call::PutImmutable, Call::AnnounceSigned] {
+        for c2 in [Call::FindNode, Call::GetClosest, Call::GetMutable, Call::GetImmutable] {
+            for c3 in [Call::PutMutableCas, Call::PutMutable, Call::PutImmutable] {
+                for f in [Fault::HoldStoreAcks, Fault::DropStoreAcks] {
+                    store_phase.push((Script { seed: mix(a.seed, 0x7219e + store_phase.len() as u64), servers: 4, x_server: false, calls: vec![(c1, false, 0), (c2, false, 5), (c3, false, 6)] }, f));
+                }
             }
         }
     }
